@@ -122,8 +122,5 @@ def bounded(world, tier, seed, rep):
         fails, n = search(v)
         total += n
         bad += fails
-    if bad:
-        rep.say(f"ENGINE-ERROR property={PROP}: bounded stand-in found a native failure the prover did not report: {bad[0]}")
-        rep.bump(3)
-    return {"label": "bounded", "scope": "registries: all subsets of {0,1,2,3,253,254,255} + dense 0..253, 1..254, 0..252 + {5},{100,200}; x write ok/fails x 5 versions",
-            "evaluations": total, "native_failures": len(bad)}
+    return {"label": "bounded", "native_failure": bad[0] if bad else None, "scope": "registries: all subsets of {0,1,2,3,253,254,255} + dense 0..253, 1..254, 0..252 + {5},{100,200}; x write ok/fails x 5 versions",
+            "evaluations": total}
